@@ -4,13 +4,13 @@
 # given checks (quick tier) against the changed tree; prints one summary line per step. Removes the worktree afterwards.
 N=$1; shift
 V=$(cd "$(dirname "$0")/.." && pwd)
-WT=/tmp/seed_wt_$N
+WT=${TMPDIR:-/tmp}/seed_wt_$N
 git -C /repo worktree remove --force $WT >/dev/null 2>&1
 git -C /repo worktree add -q $WT HEAD --detach || exit 2
 ( cd $WT && git apply $V/seeded/$N/patch.diff ) || { echo "$N: patch does not apply"; git -C /repo worktree remove --force $WT; exit 2; }
 export PYTHONDONTWRITEBYTECODE=1
-D0=$(VERIF_REPO=/repo PYTHONPATH=/tmp/mut_tools:/tmp/mut_tools/compat:$V/harness:$V/harness/compat /venv/bin/python $V/seeded/$N/demo.py >/dev/null 2>&1; echo $?)
-D1=$(VERIF_REPO=$WT PYTHONPATH=/tmp/mut_tools:/tmp/mut_tools/compat:$V/harness:$V/harness/compat /venv/bin/python $V/seeded/$N/demo.py >/dev/null 2>&1; echo $?)
+D0=$(VERIF_REPO=/repo PYTHONPATH=$V/harness:$V/harness/compat /venv/bin/python $V/seeded/$N/demo.py >/dev/null 2>&1; echo $?)
+D1=$(VERIF_REPO=$WT PYTHONPATH=$V/harness:$V/harness/compat /venv/bin/python $V/seeded/$N/demo.py >/dev/null 2>&1; echo $?)
 echo "$N demo: unchanged=$D0 changed=$D1"
 mkdir -p $V/work/seeded
 for c in "$@"; do
